@@ -1,5 +1,5 @@
 """C07 — the front end is total: any text yields diagnostics, never a crash or hang."""
-from harness import frontfuzz, chk, lexer
+from harness import frontfuzz, chk, lexer, ifdefs
 
 ID = "C07"
 MODULES = ["HeraProofs.Props.C07", "HeraProofs.Props.C10", "HeraProofs.Props.C16", "HeraProofs.Props.C09", "HeraProofs.Props.C07b"]
@@ -26,6 +26,10 @@ def run(ctx):
     lx = lexer.check(seed + 3, 300000 if thorough else 6000)
     r["violations"] += lx["violations"]
     r["disagreements"] += lx["disagreements"]
+    # conditional compilation on rendered, mutated and unbalanced directive sequences: an exception there is C07's business
+    ifd = ifdefs.check(seed + 11, 60000 if thorough else 3000)
+    r["violations"] += [v for v in ifd["violations"] if v.get("property") == "C07"]
+    r["evaluations"] += ifd["evaluations"]
     grid, items = chk.check_grid(False, seed)
     r["violations"] += [v for v in grid["violations"] if v.get("property") == "C07"]
     r["evaluations"] += len(items) + lx["evaluations"]
@@ -39,4 +43,11 @@ def run(ctx):
 
 
 def replay(obj):
+    if obj.get("stream") == "ifdef":
+        import hera.parser as P
+        try:
+            P.evaluate_ifdefs(obj["case"]["text"])
+        except Exception as e:  # noqa
+            return "evaluate_ifdefs raised " + type(e).__name__
+        return None
     return frontfuzz.replay_case(obj["case"])
